@@ -115,14 +115,22 @@ func (ts *Timers) Add(ctx context.Context, id string, message interface{}, in ti
 			// Not exactly what we want ...
 		case <-timer.C:
 			Logf("Timers firing %s", JS(ts))
+
+			// See https://github.com/Comcast/sheens/issues/19
+			//
+			// The timer is no longer pending once it fires:
+			// free the id before emitting (the handler of the
+			// message may want to use it), and never remove an
+			// entry that was made under that id since.
+			ts.Lock()
+			if cur, have := ts.timers[id]; have && cur == te {
+				delete(ts.timers, id)
+			}
+			ts.Unlock()
+
 			if err := ts.emit(ctx, te.Message); err != nil {
 				ts.err(fmt.Errorf("Timers emit error %v id=%s", err, id))
 			}
-
-			// See https://github.com/Comcast/sheens/issues/19
-			ts.Lock()
-			delete(ts.timers, id)
-			ts.Unlock()
 		}
 	}()
 
